@@ -39,6 +39,14 @@ pub trait Tsk {
     fn sk_skipped(&self) -> u64 { 2 }
     fn sk_third(&self) -> u64;
 }
+/// a provided method with a `where Self: Sized` clause between ordinary ones is exported like any
+/// other method: it owns its declaration-order slot
+#[cglue_trait]
+pub trait Twh {
+    fn wh_first(&self) -> u64;
+    fn wh_sized(&self, k: u64) -> u64 where Self: Sized { k }
+    fn wh_third(&self) -> u64;
+}
 macro_rules! impl_all { ($t:ty, $k:expr) => {
     impl Tzed for $t {
         fn z2(&self) -> u64 { self.v ^ 1 ^ $k }
@@ -50,6 +58,7 @@ macro_rules! impl_all { ($t:ty, $k:expr) => {
     impl Tabc for $t { fn q(&self) -> u64 { self.v ^ 3 ^ $k } }
     impl Tyop for $t { fn y(&self) -> u64 { self.v ^ 4 ^ $k } }
     impl Tbop for $t { fn b(&self) -> u64 { self.v ^ 6 ^ $k } fn a(&self) -> u64 { self.v ^ 7 ^ $k } }
+    impl Twh for $t { fn wh_first(&self) -> u64 { self.v ^ 31 } fn wh_sized(&self, k: u64) -> u64 { self.v ^ 32 ^ k } fn wh_third(&self) -> u64 { self.v ^ 33 } }
     impl Tsk for $t { fn sk_first(&self) -> u64 { self.v ^ 21 } fn sk_third(&self) -> u64 { self.v ^ 23 } }
     impl Tvo for $t { fn vo_first(&self) -> u64 { self.v ^ 11 } fn vo_second(&self) -> u64 { self.v ^ 12 } fn vo_third(&self) -> u64 { self.v ^ 13 } }
 } }
